@@ -99,6 +99,7 @@ func c15SeamScenario(c *choice.Ctx, rep *report.R, depth int) {
 		return "rcode" + rcodeName(m.RCode())
 	}
 	var minCost, firstCost int // firstCost: what the very first request of a fresh subnet is charged at admission
+	newConn := false           // tcp seam: the last send opened a connection (charged costTCPConn on its own when it was accepted)
 	switch seam {
 	case "udp":
 		minCost, firstCost = costUDPQuery, costUDPQuery
@@ -133,7 +134,9 @@ func c15SeamScenario(c *choice.Ctx, rep *report.R, depth int) {
 		conns := map[string]*env.End{}
 		send = func(who string, id uint16) string {
 			impl := conns[who]
+			newConn = false
 			if impl == nil || impl.IsClosed() {
+				newConn = true
 				impl, _ = env.Pipe(zvTCPAddr(vLocalV4), zvTCPAddr(netip.AddrPortFrom(netip.MustParseAddr(clients[who]), 999)))
 				conns[who] = impl
 				im := impl
@@ -197,7 +200,10 @@ func c15SeamScenario(c *choice.Ctx, rep *report.R, depth int) {
 		}
 	}
 	start := time.Now()
-	type adm struct{ at time.Duration }
+	type adm struct {
+		at   time.Duration
+		cost int
+	}
 	admitted := map[string][]adm{}
 	subnet := map[string]string{"A": "a", "A2": "a", "B": "b"}
 	usedSubnet := map[string]bool{}
@@ -223,13 +229,19 @@ func c15SeamScenario(c *choice.Ctx, rep *report.R, depth int) {
 				fail("answer-without-forward", fmt.Sprintf("%s got an answer but the upstream saw %d queries", who, fwd))
 			}
 			now := time.Since(start)
-			admitted[sn] = append(admitted[sn], adm{now})
+			cost := minCost
+			if seam == "tcp" && newConn {
+				cost += costTCPConn // the connection this query arrived on was accepted (and charged) just before
+			}
+			admitted[sn] = append(admitted[sn], adm{now, cost})
 			ad := admitted[sn]
+			sum := 0
 			for j := len(ad) - 1; j >= 0; j-- {
 				n := len(ad) - j
+				sum += ad[j].cost
 				w := (now - ad[j].at).Seconds()
-				if float64(n*minCost) > float64(burst)+w+1e-6 {
-					fail("bound-exceeded", fmt.Sprintf("subnet of %s: %d queries (cost >= %d each) admitted in %.0fs, bound %d + 1*window", who, n, minCost, w, burst))
+				if float64(sum) > float64(burst)+w+1e-6 {
+					fail("bound-exceeded", fmt.Sprintf("subnet of %s: %d queries (total cost %d: %d per query, %d per accepted tcp connection) admitted in %.0fs, bound %d + 1*window", who, n, sum, minCost, costTCPConn, w, burst))
 					break
 				}
 			}
